@@ -228,3 +228,49 @@ def tpkt_read_uses_only_link_read(ctx, mir, stats):
     if not obs:
         raise Inconclusive("ENCODING-FAILED: tpkt::Client::read not found")
     return obs
+
+
+# --------------------------------------------------------------------------
+# C08: decompress dispatch on the colour depth
+# --------------------------------------------------------------------------
+def decompress_dispatch(ctx, mir, stats):
+    f = find_fn(mir, r"^event::<impl at src/core/event\.rs[^>]*>::decompress$")
+    obs = []
+    sw = None
+    for n in f.order:
+        b = f.blocks[n]
+        if b.cleanup or b.t["kind"] != "switch":
+            continue
+        # the switch whose operand is the bpp field (u16 field 6 of BitmapEvent)
+        src = " ".join(b.stmts)
+        if re.search(r"\(_1\.\d+: u16\)", src + b.t["operand"]) and any(l in ("16", "32") for l, _ in b.t["targets"]):
+            sw = n
+            break
+    if sw is None:
+        raise Inconclusive("ENCODING-FAILED: switch on BitmapEvent.bpp not found in decompress")
+    labels = sorted(l for l, _ in f.blocks[sw].t["targets"] if l != "otherwise")
+    obs.append({"id": "decompress:depths", "ok": labels == ["16", "32"], "functions": [f.name],
+                "detail": "depths with a decoder: %s (expected exactly 16 and 32)" % labels, "where": f.name + " " + sw})
+    other = dict(f.blocks[sw].t["targets"]).get("otherwise")
+    reach = bfs_reach(f, other)
+    bad_calls = []
+    for n in reach:
+        t = f.blocks[n].t
+        if t["kind"] == "call" and re.search(r"rle_|rgb565|from_elem|Vec::<.*>::(with_capacity|new)|alloc::", t["func"]):
+            bad_calls.append(t["func"])
+        # z3-decided: no block of the decoder arms is reachable from the otherwise edge
+    for lab, tgt in f.blocks[sw].t["targets"]:
+        if lab == "otherwise":
+            continue
+        r = fp_reachable(f, other, tgt, stats)
+        obs.append({"id": "decompress:otherwise-does-not-reach-arm-%s" % lab, "ok": not r, "functions": [f.name],
+                    "detail": "decoder arm for depth %s is %sreachable from the unsupported-depth edge" % (lab, "" if r else "un"), "where": f.name})
+    obs.append({"id": "decompress:otherwise-no-decoder-call", "ok": not bad_calls, "functions": [f.name],
+                "detail": "calls reachable from the unsupported-depth edge: %s" % (bad_calls or "no decoder / allocation call"), "where": f.name})
+    rets = [n for n in reach if f.blocks[n].t["kind"] == "return"]
+    errs = [n for n in reach if any(re.match(r"_0 = Result::<.*>::Err\(", s) for s in f.blocks[n].stmts)]
+    oks = [n for n in reach if any(re.match(r"_0 = Result::<.*>::Ok\(", s) for s in f.blocks[n].stmts)]
+    # the Ok constructions reachable from `otherwise` must be none (the join block after the match holds only `return`)
+    obs.append({"id": "decompress:otherwise-returns-err", "ok": bool(errs) and not oks and bool(rets), "functions": [f.name],
+                "detail": "from the unsupported-depth edge: Err built in %s, Ok built in %s" % (errs, oks), "where": f.name})
+    return obs
